@@ -58,10 +58,16 @@ T("C16", "twin-intdiv", P2T,
   "unix_timestamp = int(dt.replace(microsecond=0).timestamp())",
   "whole = dt.replace(microsecond=0)\n    unix_timestamp = int(whole.timestamp())",
   "intermediate variable")
-T("C16", "twin-int-ts", P2T,
+M("C16", "int-of-float-timestamp", P2T,
   "unix_timestamp = int(dt.replace(microsecond=0).timestamp())",
-  "unix_timestamp = int(dt.timestamp())",
-  "int() of the float timestamp truncates to the whole seconds")
+  "unix_timestamp = int(dt.timestamp())", "R16.1 R16.2",
+  "int() truncates toward zero: one second late for instants before 1970 "
+  "with a fraction (seed C16-g; was wrongly listed as a benign twin while "
+  "the quantifier started at the epoch)")
+T("C16", "twin-floor-ts", P2T,
+  "unix_timestamp = int(dt.replace(microsecond=0).timestamp())",
+  "unix_timestamp = int(dt.timestamp() // 1)",
+  "floor of the float timestamp")
 T("C16", "twin-1000", P2T, "dt.microsecond * 10**3", "dt.microsecond * 1000",
   "equivalent constant")
 T("C16", "twin-1e9-int", UT, "unix_nano / 1e9, tz=UTC", "unix_nano / 10**9, tz=UTC",
@@ -1935,3 +1941,85 @@ M("C01", "break-marks-non-break-nodes", NUP,
   "        if node.uid in sub_graph_node.break_uids:",
   "        if node.uid not in sub_graph_node.break_uids:", "R1.7",
   "BREAK marks every body node that is not a break point")
+
+# ===================================================== wave g (session 3)
+JCFG = "json_data_source/json_config.py"
+_ING_OLD = ("    for graph_solution in graph_solutions:\n"
+            "        update_and_create_events_from_graph_solution(graph_solution, events)\n")
+M("C01", "jobs-skipped-when-seen", DI, _ING_OLD,
+  "    seen: set[frozenset[str]] = set()\n"
+  "    for graph_solution in graph_solutions:\n"
+  "        shape = frozenset(e.meta_data['EventType'] for e in graph_solution.events.values())\n"
+  "        if shape in seen:\n"
+  "            continue\n"
+  "        seen.add(shape)\n"
+  "        update_and_create_events_from_graph_solution(graph_solution, events)\n",
+  "R1.12", "a job is skipped when the run already saw one like it (seed C04-g)")
+M("C04", "jobs-skipped-when-seen", DI, _ING_OLD,
+  "    seen: set[frozenset[str]] = set()\n"
+  "    for graph_solution in graph_solutions:\n"
+  "        shape = frozenset(e.meta_data['EventType'] for e in graph_solution.events.values())\n"
+  "        if shape in seen:\n"
+  "            continue\n"
+  "        seen.add(shape)\n"
+  "        update_and_create_events_from_graph_solution(graph_solution, events)\n",
+  "R4.7", "a job is skipped when the run already saw one like it (seed C04-g)")
+M("C05", "only-first-node-registered", PG,
+  '''        if parent_graph_node not in self.parent_graph_nodes_to_node_ref:
+            self.parent_graph_nodes_to_node_ref[parent_graph_node] = []
+        self.parent_graph_nodes_to_node_ref[parent_graph_node].append(node_ref)''',
+  '''        self.parent_graph_nodes_to_node_ref.setdefault(
+            parent_graph_node, [node_ref]
+        )''', "R5.12", "later diagram nodes of a loop node are not registered (seed C05-g)")
+T("C05", "twin-register-setdefault-append", PG,
+  '''        if parent_graph_node not in self.parent_graph_nodes_to_node_ref:
+            self.parent_graph_nodes_to_node_ref[parent_graph_node] = []
+        self.parent_graph_nodes_to_node_ref[parent_graph_node].append(node_ref)''',
+  '''        self.parent_graph_nodes_to_node_ref.setdefault(
+            parent_graph_node, []
+        ).append(node_ref)''', "setdefault(...).append(...) keeps every node")
+M("C07", "break-complement-of-wrong-set", CUG,
+  '''        loop.break_events
+        - break_events_without_path_back_to_root_and_other_break_events''',
+  "        loop.break_events - break_events_without_path_back_to_root",
+  "R7.11", "a break event can be re-attached by neither handler (seed C07-g)")
+_FAN_OLD = '''    # get end event to event lists mapping so that we can make sure branch
+    # events are still accounted for in loops
+    end_event_to_event_lists_mapping = create_end_event_to_event_lists_mapping(
+        sub_loop.end_events, sub_loop, sub_graph
+    )
+    # remove loop edges from sub graph
+    remove_loop_edges(sub_loop, sub_graph)
+'''
+_FAN_NEW = '''    # remove loop edges from sub graph
+    remove_loop_edges(sub_loop, sub_graph)
+    end_event_to_event_lists_mapping = create_end_event_to_event_lists_mapping(
+        sub_loop.end_events, sub_loop, sub_graph
+    )
+'''
+M("C07", "exit-fanout-after-cut", SGL, _FAN_OLD, _FAN_NEW, "R7.11",
+  "exit fan-out read after the exit edges were cut (seed C01-g)")
+M("C01", "exit-fanout-after-cut", SGL, _FAN_OLD, _FAN_NEW, "R1.13",
+  "exit fan-out read after the exit edges were cut (seed C01-g)")
+M("C12", "job-name-nocase", DM,
+  "    id: Mapped[str] = mapped_column(Integer, primary_key=True)\n"
+  "    job_name: Mapped[str] = mapped_column(String, nullable=False)",
+  "    id: Mapped[str] = mapped_column(Integer, primary_key=True)\n"
+  "    job_name: Mapped[str] = mapped_column(String(collation=\"NOCASE\"), nullable=False)",
+  "R12.1", "case-insensitive ORDER BY under a case-sensitive groupby (seed C12-g)")
+M("C14", "non-ascii-in-default-encoding", O2P,
+  "json.dump(pv_event_list, f, indent=4)",
+  "json.dump(pv_event_list, f, indent=4, ensure_ascii=False)", "R14.3",
+  "non-ASCII written in the platform encoding, read as UTF-8 (seed C14-g)")
+TT("C14", "twin-utf8-both-sides", [
+    (O2P, "json.dump(pv_event_list, f, indent=4)",
+     "json.dump(pv_event_list, f, indent=4, ensure_ascii=False)"),
+    (O2P, '        with open(file_path, "w") as f:',
+     '        with open(file_path, "w", encoding="utf-8") as f:')],
+   "readable UTF-8 written explicitly as UTF-8")
+M("C13", "iterable-walked-twice", JCFG,
+  '''            priority_key_path = tuple(iter(key_path))
+            for key in priority_key_path:''',
+  '''            priority_key_path = tuple(key_path)
+            for key in key_path:''', "R13.9",
+  "the parameter itself is traversed a second time (seed C13-g shape)")
